@@ -146,7 +146,14 @@ def c_stab_state(ctx, args):
     return None
 
 
-CHECKS = {'duality_corr': c_duality_corr, 'to_state_dense': c_to_state_dense, 'ctor': c_ctor, 'stab_state': c_stab_state}
+def c_history(ctx, args):
+    """a query on ONE reused object, after in-place (often sign-only) updates, equals the same query on a fresh equal object"""
+    from vlib import history
+    kind, n, seed, steps, which = args
+    return history.reused_object_history(ctx, kind, n, seed, steps, which)
+
+
+CHECKS = {'duality_corr': c_duality_corr, 'to_state_dense': c_to_state_dense, 'ctor': c_ctor, 'stab_state': c_stab_state, 'history': c_history}
 
 
 def run(ctx):
@@ -183,3 +190,7 @@ def run(ctx):
         fmt = rng.choice(['list', 'strings', 'objects'])
         do(ctx, 'stab_state', [n, stabs, fmt], nontrivial=('s', it) if L < n and any(p for _, p in stabs) else None)
         ctx.res.count('L%d_of_N%d' % (L, n))
+    # histories on one reused object: lazily kept results must follow every in-place update
+    for _ in range(int(40 * B)):
+        do(ctx, 'history', ['map', rng.randint(1, 4), rng.randrange(10 ** 6), rng.randint(4, 12), ['to_state', 'to_state_r', 'copy']], nontrivial=('h', 'map', ctx.res.evaluations))
+        do(ctx, 'history', ['state', rng.randint(1, 4), rng.randrange(10 ** 6), rng.randint(4, 12), ['to_map', 'copy']], nontrivial=('h', 'state', ctx.res.evaluations))
